@@ -14,6 +14,28 @@
 
 static cache_page g_tmp;	/* large: built here, copied by the cache */
 
+/* What a stored page must hold, stated independently of cache_page_size(): the formatter reads the page extension
+   (data.ext_lop.ext) of a page that received X/28/0, X/28/1 or X/28/4 (teletext.c: x28_designations & 0x11, packet.c: 0x13),
+   the enhancement triplets of a page that received X/26, the rows and links otherwise; other functions their own member. */
+static unsigned int needed_size(const cache_page *cp)
+{
+	const unsigned int hdr = sizeof(*cp) - sizeof(cp->data);
+
+	switch (cp->function) {
+	case PAGE_FUNCTION_UNKNOWN:
+	case PAGE_FUNCTION_LOP:
+		if (cp->x28_designations & ((1 << 0) | (1 << 1) | (1 << 4)))
+			return hdr + sizeof(cp->data.ext_lop);
+		if (cp->x26_designations)
+			return hdr + sizeof(cp->data.enh_lop);
+		return hdr + sizeof(cp->data.lop);
+	case PAGE_FUNCTION_GPOP: case PAGE_FUNCTION_POP: return hdr + sizeof(cp->data.pop);
+	case PAGE_FUNCTION_GDRCS: case PAGE_FUNCTION_DRCS: return hdr + sizeof(cp->data.drcs);
+	case PAGE_FUNCTION_AIT: return hdr + sizeof(cp->data.ait);
+	default: return sizeof(*cp);
+	}
+}
+
 static void fill(cache_page *cp, const c10_desc *d)
 {
 	unsigned int size, hdr, i;
@@ -29,7 +51,7 @@ static void fill(cache_page *cp, const c10_desc *d)
 	cp->x26_designations = d->x26;
 	cp->x27_designations = d->tag & 3;
 	cp->x28_designations = d->x28;
-	size = cache_page_size(cp);
+	size = needed_size(cp);
 	hdr = sizeof(*cp) - sizeof(cp->data);
 	p = (uint8_t *) &cp->data;
 	for (i = 0; i < size - hdr; ++i)
@@ -74,10 +96,10 @@ int c10_matches(void *cpv, const c10_desc *d, int stored_subno)
 	    || cp->x26_designations != g_tmp.x26_designations || cp->x27_designations != g_tmp.x27_designations
 	    || cp->x28_designations != g_tmp.x28_designations)
 		return 0;
-	size = cache_page_size(cp);
+	size = needed_size(&g_tmp);
 	hdr = sizeof(*cp) - sizeof(cp->data);
-	if (size != cache_page_size(&g_tmp))
-		return 0;
+	if (cache_page_size(cp) < size)
+		return 0;	/* the cache stored (and allocated) less than the page needs */
 	return 0 == memcmp(&cp->data, &g_tmp.data, size - hdr);
 }
 
